@@ -143,13 +143,18 @@ def resolve_by_path(t: T, path, memo=None) -> T:
         known[c] = pol
         if c.op == "unop" and c.args[0] == "not" and isinstance(c.args[1], T):
             known[c.args[1]] = not pol
+        if c.op == "cmp" and c.args[0] in ("==", "!=") and len(c.args) == 3:
+            known[mk("cmp", "!=" if c.args[0] == "==" else "==", c.args[1], c.args[2])] = not pol
     if memo is None:
         memo = {}
 
     def go(x):
         if x.uid in memo:
             return memo[x.uid]
-        if x.op == "phi" and x.args[0] in known:
+        c0 = x.args[0] if x.op == "phi" else None
+        if c0 is not None and c0 not in known and c0.op == "unop" and c0.args[0] == "not" and c0.args[1] in known:
+            r = go(x.args[2] if known[c0.args[1]] else x.args[1])
+        elif x.op == "phi" and x.args[0] in known:
             r = go(x.args[1] if known[x.args[0]] else x.args[2])
         else:
             new_args = tuple(go(a) if isinstance(a, T) else a for a in x.args)
@@ -222,11 +227,46 @@ def simplify(op: str, *args) -> T:
         return setitem(*args)
     if op == "phi" and args[1] is args[2]:
         return args[1]
+    if op == "call":
+        return _canon_where(mk(op, *args))
     return mk(op, *args)
 
 
+def _disjuncts(c: T) -> List[T]:
+    """c1 | c2, logical_or(c1, c2), c1 or c2 -> [c1, c2, ...]"""
+    if c.op == "binop" and c.args[0] == "|":
+        return _disjuncts(c.args[1]) + _disjuncts(c.args[2])
+    if c.op == "boolop" and c.args[0] == "or":
+        return [d for a in c.args[1:] for d in _disjuncts(a)]
+    if c.op == "call" and c.args[0].op == "name" and c.args[0].args[0].split(".")[-1] == "logical_or" and len(c.args) == 3:
+        return _disjuncts(c.args[1]) + _disjuncts(c.args[2])
+    return [c]
+
+
+def _canon_where(t: T) -> T:
+    """where(c1(x) | c2(x) | ..., 0, x)  ==  the chain  y1 = where(cn(x), 0, x); y2 = where(c(n-1)(y1), 0, y1); ...
+    Exactly the same value: a disjunct that fires gives 0, and 0 passed on through the remaining zeroing tests stays 0
+    or is replaced by 0.  One canonical form (the sequential one the repository uses) lets every guard rule see a
+    merged mask as the individual guards it consists of.  Only applied when every disjunct mentions x."""
+    f = t.args[0]
+    if not (f.op == "name" and f.args[0].split(".")[-1] == "where") or len(t.args) != 4:
+        return t
+    c, a, x = t.args[1], t.args[2], t.args[3]
+    if not (isinstance(a, T) and a.op == "const" and a.args[0] in (0, 0.0)) or any(
+            isinstance(z, T) and z.op == "kw" for z in t.args[1:]):
+        return t
+    ds = _disjuncts(c)
+    if len(ds) < 2 or not all(any(y is x for y in subterms(d)) for d in ds):
+        return t
+    cur = x
+    for d in reversed(ds):
+        d2 = substitute(d, {x: cur}) if cur is not x else d
+        cur = mk("call", f, d2, a, cur)
+    return cur
+
+
 def call(f: T, *args: T) -> T:
-    return mk("call", f, *args)
+    return _canon_where(mk("call", f, *args))
 
 
 def kw(k: str, v: T) -> T:
@@ -379,9 +419,43 @@ def rule_vocabulary() -> set:
     return _RULE_VOCAB
 
 
+_RULE_REFS: Optional[set] = None
+
+
+def rule_references() -> set:
+    """dotted names quoted in the checker's sources: "linalg_utils.qr_vmap", "wavefunctions.multislater._det_overlap" """
+    global _RULE_REFS
+    if _RULE_REFS is None:
+        import glob
+        import os
+        import re
+        here = os.path.dirname(os.path.abspath(__file__))
+        refs = set()
+        for path in glob.glob(os.path.join(here, "**", "*.py"), recursive=True):
+            with open(path) as fh:
+                refs.update(re.findall(r"[\"']([A-Za-z_][A-Za-z0-9_]*(?:\.[A-Za-z_][A-Za-z0-9_]*)+)[\"']", fh.read()))
+        _RULE_REFS = refs
+    return _RULE_REFS
+
+
+def _named_by_rules(callee) -> bool:
+    n = callee.name
+    if n not in rule_vocabulary():
+        return False
+    if getattr(callee, "cls", None) is not None:
+        return True
+    # a module-level function: the rules mean it only if they quote it with its module, or mention the bare name
+    # without ever qualifying it with a class (a method of the same name is a different function)
+    refs = [r for r in rule_references() if r.split(".")[-1] == n]
+    q = callee.qualname
+    if any(q.endswith(r) or r.endswith(q) for r in refs):
+        return True
+    return not refs
+
+
 def is_unnamed_helper(callee) -> bool:
     n = callee.name
-    if not n.startswith("_") or n.startswith("__") or n in rule_vocabulary():
+    if not n.startswith("_") or n.startswith("__") or _named_by_rules(callee):
         return False
     if getattr(callee, "is_custom_jvp", False) or callee.is_abstract:
         return False
@@ -580,18 +654,27 @@ class Evaluator:
             n.ctx = ast.Load()
         return n
 
+    @staticmethod
+    def _pc(cond, pol):
+        """path-condition entry with negations folded into the polarity: (not c, True) is (c, False)"""
+        while isinstance(cond, T) and cond.op == "unop" and cond.args[0] == "not" and isinstance(cond.args[1], T):
+            cond, pol = cond.args[1], not pol
+        if isinstance(cond, T) and cond.op == "cmp" and cond.args[0] == "!=" and len(cond.args) == 3:
+            cond, pol = mk("cmp", "==", cond.args[1], cond.args[2]), not pol      # (a != b, False) is (a == b, True)
+        return (cond, pol)
+
     def st_If(self, fr, st):
         cond = self.eval(fr, st.test)
         base = fr.env
         path0 = fr.path
         e1 = base.copy()
-        fr.env, fr.path = e1, path0 + ((cond, True),)
+        fr.env, fr.path = e1, path0 + (self._pc(cond, True),)
         self.fork(fr)
         self.exec_block(fr, st.body)
         e1 = fr.env
         s1 = self.take_state(fr)
         e2 = base.copy()
-        fr.env, fr.path = e2, path0 + ((cond, False),)
+        fr.env, fr.path = e2, path0 + (self._pc(cond, False),)
         self.exec_block(fr, st.orelse)
         e2 = fr.env
         fr.path = path0
@@ -602,12 +685,12 @@ class Evaluator:
         if e1.terminated:
             # guard clause: the rest of the block runs only when the test failed
             fr.env = e2
-            fr.path = path0 + ((cond, False),)
+            fr.path = path0 + (self._pc(cond, False),)
             self.join_state(fr, s1, True, False)
             return
         if e2.terminated:
             fr.env = e1
-            fr.path = path0 + ((cond, True),)
+            fr.path = path0 + (self._pc(cond, True),)
             self.join_state(fr, s1, False, True)
             return
         merged = Env()
@@ -803,6 +886,32 @@ class Evaluator:
                     fr.env.vars[v] = mk("loopout", lid, v, inits[v] if inits.get(v) is not None else mk("undef", v), fin)
             self.emit(fr, "loop_exit", lid, header)
             return
+        if isinstance(it, T) and it.op == "genseq" and not st.orelse:
+            # for x in <generator evaluated in place>: the body runs once per yield site, between them the loop-carried
+            # variables keep their values; the generator's own loops make the whole thing a loop
+            lid = st.lineno
+            assigned = self._assigned_names(st.body)
+            inits = {}
+            for v in assigned:
+                init = fr.lookup(v)
+                inits[v] = init
+                if init is not None and v in fr.env.vars:
+                    fr.env.vars[v] = mk("havoc", lid, v, init)
+            old_loops = fr.loops
+            fr.loops = old_loops + ((lid, it),)
+            self.emit(fr, "loop_enter", lid, it)
+            for y in it.args[2:]:
+                self.assign(fr, st.target, y, lid)
+                saved_term, saved_path = fr.env.terminated, fr.path
+                self.exec_block(fr, st.body)
+                fr.env.terminated, fr.path = saved_term, saved_path
+            fr.loops = old_loops
+            for v in assigned:
+                fin = fr.env.vars.get(v)
+                if fin is not None:
+                    fr.env.vars[v] = mk("loopout", lid, v, inits[v] if inits.get(v) is not None else mk("undef", v), fin)
+            self.emit(fr, "loop_exit", lid, it)
+            return
         seq = self.const_sequence(it)
         if seq is not None and not st.orelse and not any(
                 isinstance(n, (ast.Break, ast.Continue, ast.Return)) for b in st.body for n in ast.walk(b)):
@@ -953,6 +1062,12 @@ class Evaluator:
                 return mk("mod", r[1])
             if r[0] == "ext":
                 return name(r[1])
+        if nm in getattr(mod, "constants", {}) and not fr.lookup(nm):
+            # a module-level literal constant (_DEG_THRESH = 1.0e-5, a dispatch table of strings ...): its value
+            try:
+                return self.eval(fr, mod.constants[nm])
+            except Exception:
+                pass
         if nm in mod.rebinds:
             # module-level variable (print = partial(print...), comm, MPI, rank ...)
             return mk("global", f"{mod.name}.{nm}")
@@ -1027,7 +1142,11 @@ class Evaluator:
                 if v.op in ("tuple", "list"):
                     out.extend(v.args)
                 else:
-                    out.append(mk("star", v))
+                    els = self.static_elements(v)      # *batch where batch is the scanned slice of a tuple of arrays
+                    if els is not None:
+                        out.extend(els)
+                    else:
+                        out.append(mk("star", v))
             else:
                 out.append(self.eval(fr, e))
         return out
@@ -1041,7 +1160,18 @@ class Evaluator:
 
     def ex_BinOp(self, fr, n):
         l, r = self.eval(fr, n.left), self.eval(fr, n.right)
-        return mk("binop", _OPS.get(type(n.op), type(n.op).__name__), l, r)
+        op = _OPS.get(type(n.op), type(n.op).__name__)
+        # displays of known length:  (0,) * 2  and  (a, b) + (c,)  are displays again
+        if op == "+" and l.op == r.op and l.op in ("tuple", "list") and not any(
+                isinstance(a, T) and a.op == "star" for a in l.args + r.args):
+            return mk(l.op, *l.args, *r.args)
+        if op == "*":
+            for seq, k in ((l, r), (r, l)):
+                if seq.op in ("tuple", "list") and k.op == "const" and isinstance(k.args[0], int) and \
+                        not isinstance(k.args[0], bool) and 0 <= k.args[0] <= 8 and len(seq.args) * k.args[0] <= 16 and \
+                        all(isinstance(a, T) and a.op == "const" for a in seq.args):
+                    return mk(seq.op, *(list(seq.args) * k.args[0]))
+        return mk("binop", op, l, r)
 
     def ex_UnaryOp(self, fr, n):
         v = self.eval(fr, n.operand)
@@ -1086,6 +1216,17 @@ class Evaluator:
 
     def ex_Starred(self, fr, n):
         return mk("star", self.eval(fr, n.value))
+
+    def ex_Yield(self, fr, n):
+        """inside a generator evaluated in place: record the yielded value (see inline_function / st_For)"""
+        v = self.eval(fr, n.value) if n.value is not None else NONE
+        f_ = fr
+        while f_ is not None and not hasattr(f_, "yields"):
+            f_ = f_.parent
+        if f_ is not None:
+            f_.yields.append(v)
+            return NONE
+        return mk("unknown", "Yield", getattr(n, "lineno", 0))
 
     def ex_NamedExpr(self, fr, n):
         v = self.eval(fr, n.value)
@@ -1173,6 +1314,14 @@ class Evaluator:
                     r = self.inline_function(fr, f, callee, rc, args, kws, line)
                     if r is not None:
                         return r
+        if f.op == "name" and not kws and len(args) == 1 and isinstance(args[0], T):
+            a0 = args[0]
+            if f.args[0] == "builtins.len" and a0.op in ("tuple", "list") and not any(
+                    isinstance(x, T) and x.op == "star" for x in a0.args):
+                return const(len(a0.args))
+            if f.args[0] in ("builtins.tuple", "builtins.list") and a0.op in ("tuple", "list") and not any(
+                    isinstance(x, T) and x.op == "star" for x in a0.args):
+                return mk("tuple" if f.args[0].endswith("tuple") else "list", *a0.args)
         t = call(f, *args, *kws)
         self.note_line(t, line)
         self._snapshot_closures(t, f, args)
@@ -1216,6 +1365,17 @@ class Evaluator:
     # a rule never has to know that a sub-expression has been given a function of its own
     auto_inline_helpers = True
 
+    @staticmethod
+    def _own_nodes(fn_node):
+        """nodes of a function body that belong to the function itself (nested defs / lambdas / classes excluded)"""
+        stack = list(ast.iter_child_nodes(fn_node))
+        while stack:
+            n_ = stack.pop()
+            if isinstance(n_, (ast.FunctionDef, ast.AsyncFunctionDef, ast.Lambda, ast.ClassDef)):
+                continue
+            yield n_
+            stack.extend(ast.iter_child_nodes(n_))
+
     def inline_function(self, fr: Frame, f: T, callee: FuncInfo, recv_cls: Optional[str],
                         args: List[T], kws: List[T], line: int) -> Optional[T]:
         """Evaluate an in-package callee in place with its parameters bound to the
@@ -1235,6 +1395,13 @@ class Evaluator:
             binding[pp[0].name] = f.args[0]
         for pname, m in mapping.items():
             binding[pname] = args[m[1]] if m[0] == "pos" else kwd[m[1]]
+        va = [q for q in callee.params if q.kind == "vararg"]
+        if va:
+            # *rest receives the positional arguments beyond the named ones, as a tuple of known length
+            n_named = len(pp) - (1 if bound_self and pp else 0)
+            binding[va[0].name] = mk("tuple", *args[n_named:])
+        if any(q.kind == "kwarg" for q in callee.params):
+            return None
         sub = self.new_frame(callee, None, None)
         if bound_self:
             recv = f.args[0]
@@ -1260,12 +1427,24 @@ class Evaluator:
                 if c is not None:
                     sub.types[t] = c
         sub.path, sub.loops = fr.path, fr.loops
+        is_gen = any(isinstance(n_, (ast.Yield, ast.YieldFrom)) for n_ in self._own_nodes(callee.node))
+        if is_gen:
+            if any(isinstance(n_, ast.YieldFrom) for n_ in self._own_nodes(callee.node)):
+                return None
+            sub.yields = []
         self._depth += 1
         self.emit(fr, "enter_call", line, (callee, tuple(binding.items())))
         try:
             self.exec_block(sub, callee.body())
         finally:
             self._depth -= 1
+        if is_gen:
+            # a generator evaluated in place: the sequence of values it yields, in source order (each yield site once;
+            # sites inside the generator's own loops carry those loops' iteration terms).  A for statement over this
+            # term runs its body once per site (st_For).
+            g = mk("genseq", line, callee.qualname, *sub.yields)
+            self.emit(fr, "exit_call", line, (callee, g))
+            return g
         r = self.result(sub)
         self.emit(fr, "exit_call", line, (callee, r))
         fr.inlined.append((r, sub))
